@@ -32,16 +32,17 @@ def strat_case(draw, tier):
     sc = [model_scale(m) for m in margins]
     a, b, kinds = [], [], []
     for k in range(d):
-        kind = draw(st.sampled_from(["pos", "neg", "straddle", "pos-inf", "neg-inf"]))
+        kind = draw(st.sampled_from(["pos", "neg", "straddle", "pos-inf", "neg-inf", "straddle-to-inf", "straddle-from-minus-inf"]))
         x = draw(_f(0.05, 3.0)) * sc[k]
         y = x * draw(_f(1.2, 6.0))
-        lo, hi = {"pos": (x, y), "neg": (-y, -x), "straddle": (-x, y), "pos-inf": (x, INF), "neg-inf": (-INF, -x)}[kind]
+        lo, hi = {"pos": (x, y), "neg": (-y, -x), "straddle": (-x, y), "pos-inf": (x, INF), "neg-inf": (-INF, -x),
+                  "straddle-to-inf": (-x, INF), "straddle-from-minus-inf": (-INF, y)}[kind]
         a.append(float(f"{lo:.6g}"))
         b.append(float(f"{hi:.6g}"))
         kinds.append(kind)
-    if all(k == "straddle" for k in kinds):  # must not contain the origin
+    if all(k.startswith("straddle") for k in kinds):  # must not contain the origin
         j = draw(st.integers(0, d - 1))
-        a[j] = abs(a[j])
+        a[j] = abs(a[j]) if math.isfinite(a[j]) else abs(b[j]) / 2
         b[j] = max(b[j], 2 * a[j])
         kinds[j] = "pos"
     axis = draw(st.integers(0, d - 1))
@@ -163,13 +164,22 @@ def body(case):
     fresh = build_copula_model({"margins": case["margins"], "copula": case["copula"]})
     if float(fresh.mass(a, b)) != m:
         out.append(Violation(f"{tag}/answer-depends-on-earlier-calls", f"{fresh.mass(a, b)!r} vs {m!r}; {detail}"))
+    # the copula's parameters are assignable: after an assignment the model held so far agrees with a freshly built one
+    if case["copula"]["type"] == "clayton":
+        new_c = {"type": "clayton", "theta": float(f"{1.7 * case['copula']['theta'] + 0.1:.6g}"), "eta": 1.0 - case["copula"]["eta"]}
+        model.copula.theta, model.copula.eta = new_c["theta"], new_c["eta"]
+        m2 = float(model.mass(a, b))
+        f2 = float(build_copula_model({"margins": case["margins"], "copula": new_c}).mass(a, b))
+        if m2 != f2 and not (math.isnan(m2) and math.isnan(f2)):
+            out.append(Violation(f"{tag}/mass-after-a-parameter-assignment-differs-from-a-fresh-model",
+                                 f"theta, eta := {new_c['theta']}, {new_c['eta']}: {m2!r} vs {f2!r}; {detail}"))
     return out
 
 
 def classify(case):
     labels = [case["copula"]["type"], f"d={case['d']}"] + sorted(set(case["kinds"])) + \
              sorted({branch_of(m) for m in case["margins"]})
-    nt = any(k in ("straddle", "pos-inf", "neg-inf") for k in case["kinds"]) or case["d"] == 3 or case["idx"] is not None
+    nt = any(k != "pos" and k != "neg" for k in case["kinds"]) or case["d"] == 3 or case["idx"] is not None
     return labels, nt
 
 
